@@ -1,10 +1,189 @@
-import QibProofs.Lemmas.PauliMat
-import QibModel.Encode
-/-! C12 — placeholder while the lemma files are being written (replaced below). -/
+import QibProofs.Lemmas.EncodeSum
+import QibProofs.Lemmas.EncodePrune
+import QibProofs.Lemmas.EncodeTotal
+import QibProofs.Lemmas.EncodeExtra
+/-!
+C12 — Parity encoding is a faithful parity-basis representation.
+
+Property theorems only (proofs in `Lemmas/Encode*.lean`), stated about the executable model `QibModel/Encode.lean`
+(encoder `.parity`, run by `drv_encode`). Conventions as in `Properties/C11.lean`.
+`encLadder .parity L i kind = ½ (s₀.mat + s₁.mat)` is what the encoder substitutes for the ladder operator of site `i`
+(`kind = true`: creation); `encMat φ .parity L op = Σ_terms Σ_entries coeff • Π encLadder` (ordered products).
+
+The statement "spectra are preserved" is obtained here from the representation-theoretic hypotheses that are proved
+(canonical anticommutation relations, adjointness, vacuum, dimension `2^L`) plus the cited uniqueness of such a
+representation up to unitary equivalence; the cited step is not formalised.
+-/
+open Complex Matrix
 namespace Qib.Encode
 open Qib.Pauli
 
-theorem C12_expandStep_length (ps : List PS) (a b : PS) : (expandStep ps a b).length = 2 * ps.length := by
-  simp [expandStep]; omega
+/-! ### the strings: update set `X` on sites `≥ i`, parity `Z` on site `i - 1` -/
+
+/-- the strings of `parity_encoding.py:19-30` as functions of the site: `s₀ = Z_{i-1} X_i X_{>i}` (no `Z` for `i = 0`),
+`s₁ = Y_i X_{>i}` with phase `q = 1` (creation) / `q = 3` (annihilation); all of length `L` -/
+theorem C12_parity_strings (L i k : ℕ) (hi : i < L) (hk : k < L) :
+    (s0 .parity L i).zf k = decide (k + 1 = i) ∧ (s0 .parity L i).xf k = decide (i ≤ k) ∧ (s0 .parity L i).q = 0 ∧
+    (s1c .parity L i).zf k = decide (k = i) ∧ (s1c .parity L i).xf k = decide (i ≤ k) ∧ (s1c .parity L i).q = 1 ∧
+    (s1a .parity L i).zf k = decide (k = i) ∧ (s1a .parity L i).xf k = decide (i ≤ k) ∧ (s1a .parity L i).q = 3 ∧
+    (s0 .parity L i).HasLen L ∧ (s1c .parity L i).HasLen L ∧ (s1a .parity L i).HasLen L :=
+  ⟨par_s0_zf L i k hi hk, par_s0_xf L i k hi hk, rfl, par_s1c_zf L i k hi hk, par_s1c_xf L i k hi hk, rfl,
+    par_s1a_zf L i k hi hk, par_s1a_xf L i k hi hk, rfl, s0_hasLen .parity L i hi, s1c_hasLen .parity L i hi,
+    s1a_hasLen .parity L i hi⟩
+
+/-- the encoded ladder operators in Majorana form: `½ (S ∓ i T)` with the two Hermitian strings
+`S = Z_{i-1} X_{≥i}`, `T = Y_i X_{>i}` -/
+theorem C12_parity_ladder_def (L i : ℕ) :
+    encLadder .parity L i true = (1 / 2 : ℂ) • ((s0 .parity L i).mat L - I • (tS .parity L i).mat L) ∧
+    encLadder .parity L i false = (1 / 2 : ℂ) • ((s0 .parity L i).mat L + I • (tS .parity L i).mat L) ∧
+    encLadder .parity L i true = (1 / 2 : ℂ) • ((ladderPair .parity L i true).1.mat L + (ladderPair .parity L i true).2.mat L) ∧
+    encLadder .parity L i false = (1 / 2 : ℂ) • ((ladderPair .parity L i false).1.mat L + (ladderPair .parity L i false).2.mat L) :=
+  ⟨encLadder_create .parity L i, encLadder_annihil .parity L i, rfl, rfl⟩
+
+/-- the `2L` Majorana strings square to one and anticommute pairwise (computed from the code's commutation test on the
+indicator vectors, for symbolic `i`, `j`, `L`) -/
+theorem C12_parity_majorana (L i j : ℕ) (hi : i < L) (hj : j < L) :
+    let S := fun k => (s0 .parity L k).mat L
+    let T := fun k => (tS .parity L k).mat L
+    S i * S j + S j * S i = (if i = j then (2 : ℂ) else 0) • (1 : Matrix (Fin L → Bool) (Fin L → Bool) ℂ) ∧
+    T i * T j + T j * T i = (if i = j then (2 : ℂ) else 0) • (1 : Matrix (Fin L → Bool) (Fin L → Bool) ℂ) ∧
+    S i * T j + T j * S i = 0 ∧ T i * S j + S j * T i = 0 := majorana_rel .parity L i j hi hj
+
+/-! ### canonical anticommutation relations, adjoint, vacuum -/
+
+/-- all three families: `{a_i, a†_j} = δ_ij`, `{a_i, a_j} = 0`, `{a†_i, a†_j} = 0` for the encoded ladder operators,
+every `L` and all sites -/
+theorem C12_parity_car (L i j : ℕ) (hi : i < L) (hj : j < L) :
+    (encLadder .parity L i false * encLadder .parity L j true + encLadder .parity L j true * encLadder .parity L i false =
+        if i = j then 1 else 0) ∧
+    encLadder .parity L i false * encLadder .parity L j false + encLadder .parity L j false * encLadder .parity L i false = 0 ∧
+    encLadder .parity L i true * encLadder .parity L j true + encLadder .parity L j true * encLadder .parity L i true = 0 :=
+  encLadder_car .parity L i j hi hj
+
+/-- the encoded creation operator is the adjoint of the encoded annihilation operator -/
+theorem C12_parity_adjoint (L i : ℕ) : (encLadder .parity L i false)ᴴ = encLadder .parity L i true :=
+  encLadder_adjoint .parity L i
+
+/-- every encoded annihilation operator annihilates `|0…0⟩`: its column at the all-zero basis state vanishes -/
+theorem C12_parity_vacuum (L i : ℕ) (hi : i < L) (r : Fin L → Bool) :
+    encLadder .parity L i false r (fun _ => false) = 0 := encLadder_vacuum .parity L i hi r
+
+/-! ### the encoding of a field operator -/
+
+theorem C12_encMat_def {α : Type} (φ : α → ℂ) (enc : Enc) (L : ℕ) (fop : FieldOp α) :
+    encMat φ enc L fop = (fop.terms.map fun t => (t.entries.map fun e => φ e.2 • ladderProd enc L t.ops e.1).sum).sum ∧
+    (∀ d ds j js, ladderProd enc L (d :: ds) (j :: js) = encLadder enc L j (d.otype == .create) * ladderProd enc L ds js) ∧
+    ladderProd enc L [] [] = 1 := ⟨rfl, fun _ _ _ _ => rfl, rfl⟩
+
+theorem C12_encode_unfold {α : Type} [EncScalar α] (enc : Enc) (isZ : α → Bool) (fop : FieldOp α) (op : PauliOp α) :
+    encode enc isZ fop = .ok op ↔ ∃ raw, encodeRaw enc fop = .ok raw ∧ op = raw.removeZero isZ := by
+  unfold encode
+  cases h : encodeRaw enc fop with
+  | error e => simp
+  | ok raw => simp [eq_comm]
+
+/-- the encoding of any field operator is the same coefficient-weighted sum of ordered products of the encoded ladder
+operators (exact version: the pruning test only fires on zero weights) -/
+theorem C12_parity_encode_def {α : Type} [EncScalar α] {φ : α → ℂ} (hφ : ScalarHom φ) (isZ : α → Bool)
+    (hz : ∀ w, isZ w = true → φ w = 0) (fop : FieldOp α) (op : PauliOp α)
+    (h : encode .parity isZ fop = .ok op) (hwf : fop.WF) :
+    ∃ L, fieldCheck fop = .ok L ∧ PauliOp.mat φ L op = encMat φ .parity L fop := by
+  obtain ⟨raw, hraw, rfl⟩ := (C12_encode_unfold .parity isZ fop op).mp h
+  obtain ⟨L, hL, h1, _⟩ := encodeRaw_mat hφ .parity fop raw hraw hwf
+  refine ⟨L, hL, ?_⟩
+  rw [← h1]
+  exact PauliOp.removeZero_matG (PS.mat L) φ isZ hz raw
+
+theorem C12_parity_encode_def_GQ (fop : FieldOp GQ) (op : PauliOp GQ)
+    (h : encode .parity (fun w => w.absLe 0) fop = .ok op) (hwf : fop.WF) :
+    ∃ L, fieldCheck fop = .ok L ∧ PauliOp.mat GQ.toC L op = encMat GQ.toC .parity L fop :=
+  C12_parity_encode_def GQ.scalarHom _ (fun w hw => GQ.absLe_zero w hw) fop op h hwf
+
+/-- with the pruning tolerance: entrywise distance at most `(number of pruned strings) · tol` -/
+theorem C12_parity_encode_tol {α : Type} [EncScalar α] {φ : α → ℂ} (hφ : ScalarHom φ) (isZ : α → Bool) (tol : ℝ)
+    (hz : ∀ w, isZ w = true → ‖φ w‖ ≤ tol) (fop : FieldOp α) (op : PauliOp α)
+    (h : encode .parity isZ fop = .ok op) (hwf : fop.WF) :
+    ∃ L raw, fieldCheck fop = .ok L ∧ encodeRaw .parity fop = .ok raw ∧ op = raw.removeZero isZ ∧
+      ∀ r c, ‖(PauliOp.mat φ L op - encMat φ .parity L fop) r c‖ ≤ ((raw.length - op.length : ℕ) : ℝ) * tol := by
+  obtain ⟨raw, hraw, rfl⟩ := (C12_encode_unfold .parity isZ fop op).mp h
+  obtain ⟨L, hL, h1, _⟩ := encodeRaw_mat hφ .parity fop raw hraw hwf
+  refine ⟨L, raw, hL, hraw, rfl, fun r c => ?_⟩
+  have hsplit := PauliOp.removeZero_add_dropped (PS.mat L) φ isZ raw
+  have hd : PauliOp.mat φ L (raw.removeZero isZ) - encMat φ .parity L fop = -PauliOp.mat φ L (raw.dropped isZ) := by
+    rw [← h1]; simp only [PauliOp.mat]; rw [← hsplit]; abel
+  have hlen : raw.length - (raw.removeZero isZ).length = (raw.dropped isZ).length := by
+    have := PauliOp.dropped_length isZ raw; omega
+  rw [hd, Matrix.neg_apply, norm_neg, hlen]
+  exact opMat_entry_norm_le φ L tol _ (fun e he => hz _ (PauliOp.dropped_isZ isZ raw e he)) r c
+
+theorem C12_parity_encode_tol_GQ (tol : ℚ) (fop : FieldOp GQ) (op : PauliOp GQ)
+    (h : encode .parity (fun w => w.absLe tol) fop = .ok op) (hwf : fop.WF) :
+    ∃ L raw, fieldCheck fop = .ok L ∧ encodeRaw .parity fop = .ok raw ∧ op = raw.removeZero (fun w => w.absLe tol) ∧
+      ∀ r c, ‖(PauliOp.mat GQ.toC L op - encMat GQ.toC .parity L fop) r c‖ ≤ ((raw.length - op.length : ℕ) : ℝ) * (tol : ℝ) :=
+  C12_parity_encode_tol GQ.scalarHom _ (tol : ℝ) (fun w hw => GQ.absLe_norm w tol hw) fop op h hwf
+
+/-- totality on valid operators -/
+theorem C12_parity_encode_total {α : Type} [EncScalar α] (isZ : α → Bool) (fop : FieldOp α) (L : ℕ)
+    (hL : fieldCheck fop = .ok L) (hv : ∀ t ∈ fop.terms, t.Valid L) :
+    ∃ op, encode .parity isZ fop = .ok op ∧ fop.WF := by
+  obtain ⟨raw, hraw⟩ := encodeRaw_ok .parity fop L hL hv
+  exact ⟨raw.removeZero isZ, (C12_encode_unfold .parity isZ fop _).mpr ⟨raw, hraw, rfl⟩, fun t ht => (hv t ht).wf⟩
+
+/-! ### occupation numbers: qubit `j` stores the parity of sites `0..j` -/
+
+/-- `Z_{i-1} Z_i` with `Z_{-1} := 1` -/
+theorem C12_numZ_def (L i : ℕ) (r c : Fin L → Bool) :
+    numZ .parity L i r c = ∏ k : Fin L, (if k.val + 1 = i ∨ k.val = i then pauliZ else (1 : Matrix Bool Bool ℂ)) (r k) (c k) := rfl
+
+/-- the encoded occupation number of site `i` is `½ (1 - Z_{i-1} Z_i)` -/
+theorem C12_parity_number (L i : ℕ) (hi : i < L) :
+    encLadder .parity L i true * encLadder .parity L i false = (1 / 2 : ℂ) • (1 - numZ .parity L i) :=
+  encLadder_number .parity L i hi
+
+/-- the operator `a†_i a_i` as data: one term, one coefficient `1` at `(i, i)` -/
+def numberOp (α : Type) [EncScalar α] (L i : ℕ) : FieldOp α :=
+  ⟨[⟨true, L⟩], [⟨[⟨0, .create⟩, ⟨0, .annihil⟩], [L, L], [([i, i], 1)]⟩]⟩
+
+/-- … and this is what the encoder returns for the operator `a†_i a_i` -/
+theorem C12_parity_number_encode {α : Type} [EncScalar α] {φ : α → ℂ} (hφ : ScalarHom φ) (isZ : α → Bool)
+    (hz : ∀ w, isZ w = true → φ w = 0) (L i : ℕ) (hi : i < L) (op : PauliOp α)
+    (h : encode .parity isZ (numberOp α L i) = .ok op) :
+    PauliOp.mat φ L op = (1 / 2 : ℂ) • (1 - numZ .parity L i) := by
+  have hwf : (numberOp α L i).WF := by
+    intro t ht e he
+    simp only [numberOp, List.mem_singleton] at ht; subst ht
+    simp only [List.mem_singleton] at he; subst he; rfl
+  obtain ⟨L', hL', hm⟩ := C12_parity_encode_def hφ isZ hz _ op h hwf
+  have : L' = L := by
+    have h0 : fieldIds (numberOp α L i).terms = [0] := rfl
+    have h1 : fieldCheck (numberOp α L i) = .ok L := by
+      unfold fieldCheck; rw [h0]; simp [numberOp]
+    rw [h1] at hL'; exact (Except.ok.inj hL').symm
+  subst this
+  rw [hm, ← C12_parity_number L' i hi]
+  have hb : (OType.annihil == OType.create) = false := rfl
+  simp [encMat, termMat, numberOp, ladderProd, hφ.one, hb]
+
+/-! ### not Jordan-Wigner -/
+
+/-- on two or more sites the parity strings of every ladder operator differ from its Jordan-Wigner strings -/
+theorem C12_parity_not_jw (L i : ℕ) (hL : 2 ≤ L) (hi : i < L) (create : Bool) :
+    ladderPair .parity L i create ≠ ladderPair .jw L i create ∧ s0 .parity L i ≠ s0 .jw L i :=
+  ⟨parity_pair_ne_jw L i hL hi create, parity_s0_ne_jw L i hL hi⟩
+
+/-! ### non-vacuity -/
+
+example : (s0 .parity 4 2, s1c .parity 4 2, s1a .parity 4 2) =
+    (⟨[false, true, false, false], [false, false, true, true], 0⟩, ⟨[false, false, true, false], [false, false, true, true], 1⟩,
+     ⟨[false, false, true, false], [false, false, true, true], 3⟩) := by decide
+example : (s0 .parity 3 0).z = [false, false, false] ∧ (s0 .parity 3 0).x = [true, true, true] := by decide
+/-- `encode(a†_1 a_1) = ½ III - ½ ZZI` on three sites, `encode(a†_0 a_0) = ½ III - ½ ZII` -/
+example : encode .parity (fun w => w.absLe 0) (numberOp GQ 3 1) =
+    .ok [(⟨[false, false, false], [false, false, false], 0⟩, ⟨1 / 2, 0⟩), (⟨[true, true, false], [false, false, false], 0⟩, ⟨-1 / 2, 0⟩)] := by
+  decide +kernel
+example : encode .parity (fun w => w.absLe 0) (numberOp GQ 3 0) =
+    .ok [(⟨[false, false, false], [false, false, false], 0⟩, ⟨1 / 2, 0⟩), (⟨[true, false, false], [false, false, false], 0⟩, ⟨-1 / 2, 0⟩)] := by
+  decide +kernel
+example : ladderPair .parity 2 1 true ≠ ladderPair .jw 2 1 true := by decide
 
 end Qib.Encode
